@@ -58,7 +58,22 @@ static void check_one(seqx::Ctx& c, const RS& rs, uint64_t offset, uint64_t leng
     bool same = cl.size() == ref.size();
     for (size_t k = 0; same && k < ref.size(); k++) same = cl[k].i == ref[k].i && cl[k].off == ref[k].off && cl[k].len == ref[k].len;
     if (!same) { c.fail("classification-mismatch", "small_note/preface/aligned/postface give %zu parts vs %zu", cl.size(), ref.size()); return; }
-    // every aligned part really is a whole block
+    // the classes are what their definitions say (range-split.h): small_note = the only part, begin and end both unaligned; preface = first
+    // part, unaligned begin, reaching its block's end (and not the small note); postface = last part, aligned begin, unaligned end;
+    // aligned parts = whole blocks
+    {
+        uint64_t endx = offset + length;
+        bool b_unal = ref.front().off != 0, e_unal = ref.back().off + ref.back().len != blen(ref.back().i);
+        bool want_small = ref.size() == 1 && b_unal && e_unal;
+        bool want_pre = !want_small && b_unal, want_post = !want_small && e_unal;
+        if ((bool)rs.small_note != want_small) { c.fail("class-small_note", "small_note present=%d, by definition %d (range [%llu,%llu))", (int)(bool)rs.small_note, (int)want_small, (unsigned long long)offset, (unsigned long long)endx); return; }
+        if (!want_small) {
+            if ((bool)rs.preface != want_pre) { c.fail("class-preface", "preface present=%d, by definition %d (range [%llu,%llu))", (int)(bool)rs.preface, (int)want_pre, (unsigned long long)offset, (unsigned long long)endx); return; }
+            if ((bool)rs.postface != want_post) { c.fail("class-postface", "postface present=%d, by definition %d (range [%llu,%llu))", (int)(bool)rs.postface, (int)want_post, (unsigned long long)offset, (unsigned long long)endx); return; }
+            guard = 0;
+            for (auto& x : rs.aligned_parts()) { if (x.offset != 0 || x.length != blen(x.i)) { c.fail("aligned-part-not-a-whole-block", "part (%llu,%llu,%llu)", (unsigned long long)x.i, (unsigned long long)x.offset, (unsigned long long)x.length); return; } if (++guard > 64) break; }
+        }
+    }
     // aligned begin/end enclose the range with < one block of slack
     uint64_t ab = rs.aligned_begin_offset(), ae = rs.aligned_end_offset();
     uint64_t end = offset + length;
